@@ -9,14 +9,17 @@ INVS = ["InvShape", "InvBox", "InvNearest", "InvUpdate", "InvClusterCost", "InvC
         "InvFx", "InvDone", "InvShift"]
 # (B) case generator
 GEN = {"quick": dict(Grid1=4, MaxN1=4, Grid2=2, MaxN2=3, MaxK=3, MaxB=3, DeepN=0,
-                     RGrid1=4, RMaxN1=4, RGrid2=2, RMaxN2=3, Runs=3, Seeds="{1}"),
+                     RGrid1=4, RMaxN1=4, RGrid2=2, RMaxN2=3, Runs=3, Seeds="{1}",
+                     SparseLevel=1, SparseSeedMax=8),
        "thorough": dict(Grid1=5, MaxN1=5, Grid2=2, MaxN2=4, MaxK=3, MaxB=3, DeepN=4,
-                        RGrid1=5, RMaxN1=5, RGrid2=2, RMaxN2=4, Runs=4, Seeds="{1, 2}")}
+                        RGrid1=5, RMaxN1=5, RGrid2=2, RMaxN2=4, Runs=4, Seeds="{1, 2}",
+                        SparseLevel=2, SparseSeedMax=24)}
 # sampling of the enumerated product (the complete sub-domain n <= FULL_N is always kept)
 FULL_N = {"quick": 2, "thorough": 3}
 SAMPLE = {"quick": {("traj", 1): 800, ("traj", 2): 800, ("restart", 1): 400, ("restart", 2): 300},
           "thorough": {("traj", 1): 6000, ("traj", 2): 6000, ("restart", 1): 2500, ("restart", 2): 2500}}
 TRACE_CONST = dict(MaxN1=0, Grid1=0, MaxN2=0, Grid2=0, MaxK=0, MaxB=0)
+LAYOUTS = ["owned", "view", "revf", "revr", "revb", "forder", "row2", "col2"]
 VARIANTS = [("f64", "l2", "owned"), ("f64", "l2", "view"), ("f64", "l2", "owned"), ("f64", "l2", "owned"),
             ("f32", "l2", "owned"), ("f64", "l1", "owned"), ("f64", "linf", "view"), ("f32", "l1", "owned")]
 
@@ -26,7 +29,7 @@ def select(ctx, cases):
     keep, rest = [], {}
     for c in cases:
         i = c["inp"]
-        if len(i["pts"]) <= FULL_N[ctx.tier]:
+        if len(i["pts"]) <= FULL_N[ctx.tier] or i["f"] > 2:     # (f > 2: the sparse k-means|| family, always kept)
             keep.append(c)
         else:
             rest.setdefault((c["kind"], i["f"]), []).append(c)
@@ -70,7 +73,7 @@ def random_cases(ctx, ntraj, nrestart):
                 c0.append(cand)
         v = r.choice(VARIANTS)
         metric = "l1" if (f == 1 and v[1] == "linf") else v[1]
-        out.append({"kind": "traj", "inp": {"ft": v[0], "metric": metric, "form": v[2], "f": f, "pts": pts, "c0": c0,
+        out.append({"kind": "traj", "inp": {"ft": v[0], "metric": metric, "form": r.choice(LAYOUTS), "f": f, "pts": pts, "c0": c0,
                                             "qs": queries(f, g) if f == 1 else queries(f, g)[::3],
                                             "ms": [1, 2], "nruns": r.choice([1, 2, 3]),
                                             "tol": r.choice([[1, 1000000000], [1, 1000000000], [1, 2], [3, 2]]) if metric == "l2" else [1, 1000000000]}})
@@ -88,7 +91,7 @@ def random_cases(ctx, ntraj, nrestart):
         v = r.choice(VARIANTS)
         metric = "l1" if (f == 1 and v[1] == "linf") else v[1]
         init = r.choice(["random", "kmpp", "kmpara"])
-        out.append({"kind": "restart", "inp": {"ft": v[0], "metric": metric, "f": f, "pts": pts, "k": k, "init": init,
+        out.append({"kind": "restart", "inp": {"ft": v[0], "metric": metric, "form": r.choice(LAYOUTS), "f": f, "pts": pts, "k": k, "init": init,
                                                "seed": r.randint(1, 1000), "runs": 1 if init == "kmpara" else r.randint(2, 4),
                                                "maxits": r.choice([[1, 2, 3], [1, 2, 3], [2, 3, 4], [1, 3], [300]]),
                                                "qs": queries(f, g)[::3],
